@@ -66,6 +66,7 @@ Rec(a, args) == [a |-> a, args |-> args, res |-> res', st |-> St]
 Push(a, args) == hist' = Append(hist, Rec(a, args))
 GOpen(w, cs, s, au) == SureOpen(cs, s) /\ OpenWriter(w, cs, s, au) /\ UNCHANGED unsure /\ Push("open", [w |-> w, chans |-> cs, start |-> s, auto |-> au])
 GWrite(w, ts) == WriteGuard(w, ts) /\ SureWrite(w, ts) /\ Write(w, ts) /\ unsure' = UnsureCommit(w) /\ Push("write", [w |-> w, times |-> ts, id |-> nextId, dataonly |-> "I" \notin wr[w].chans])
+GWriteConflict(w, ts) == WriteConflict(w, ts) /\ UNCHANGED unsure /\ Push("write", [w |-> w, times |-> ts, id |-> nextId, dataonly |-> FALSE])
 GCommit(w) == Commit(w) /\ unsure' = UnsureCommit(w) /\ Push("commit", [w |-> w])
 GClose(w) == CloseWriter(w) /\ UNCHANGED unsure /\ Push("close", [w |-> w])
 GReopen == Reopen /\ UNCHANGED unsure /\ Push("reopen", [x |-> 0])
@@ -103,6 +104,7 @@ GSpecBFS == GInit /\ [][GNextBFS]_gvars
 Nth(S, i) == SetToSeq(S)[(i % Cardinality(S)) + 1]
 OpenW == {w \in Writers : wr[w].open}
 ClosedW == Writers \ OpenW
+ConflictSets(w) == {ts \in SUBSET Even : ConflictGuard(w, ts)}
 LegalWrites(w) == {ts \in SUBSET Even : ts # {} /\ Cardinality(ts) <= MaxLen /\ WriteGuard(w, ts) /\ SureWrite(w, ts)}
 Sel == 0..3
 NT == Cardinality(Time)
@@ -130,12 +132,16 @@ Plans == <<
   <<"open", "write", "write", "write", "write", "write", "close", "reopen", "open", "write", "write", "close">>,
   \* 7: a durable session (explicit commit, closed), then auto-commit sessions of several commits (under
   \*    interval index persistence and a tiny file cap: unpersisted commits, rollover, persisted commits)
-  <<"open", "write", "commit", "close", "open", "write", "write", "commit", "write", "close", "open", "write", "commit", "close">>
+  <<"open", "write", "commit", "close", "open", "write", "write", "commit", "write", "close", "open", "write", "commit", "close">>,
+  \* 8: a durable late session, then an auto-commit session that starts earlier, commits, and then
+  \*    runs into the late data with a write that is refused ("cwrite"), close, reopen
+  <<"open", "write", "commit", "close", "open", "write", "cwrite", "close", "reopen", "open", "write", "close">>
 >>
 CanKind(kd) ==
   CASE kd = "open" -> ClosedW # {}
     [] kd = "write" -> \E w \in OpenW : LegalWrites(w) # {}
-    [] kd = "commit" -> \E w \in OpenW : (~wr[w].auto \/ PlanId = 7)
+    [] kd = "cwrite" -> \E w \in OpenW : ConflictSets(w) # {}
+    [] kd = "commit" -> \E w \in OpenW : ~wr[w].failed /\ (~wr[w].auto \/ PlanId \in {7, 8})
     [] kd = "close" -> OpenW # {}
     [] kd = "delete" -> DeletesOn /\ AllClosed /\ AnyData
     [] kd = "gc" -> DeletesOn
@@ -148,15 +154,17 @@ GNextSim == GEnd \/
   /\ Len(hist) < Depth
   /\ \E k \in 1..10, i \in Sel, j \in Sel, m \in Sel :
        \/ /\ k = 1 /\ ClosedW # {} /\ KindOK("open")
-          /\ LET cs == Nth(ChanSets, j) st == IF PlanId = 6 THEN 2 * (m % 2) ELSE IF PlanId = 7 THEN NextFree ELSE (m + 4 * i) % NT
-             IN UsefulOpen(cs, st) /\ GOpen(Nth(ClosedW, i), cs, st, IF PlanId = 7 THEN Len(hist) > 0 ELSE ((i + j) % 2 = 0 \/ PlanId = 6))
+          /\ LET cs == Nth(ChanSets, j) st == IF PlanId = 6 THEN 2 * (m % 2) ELSE IF PlanId = 7 THEN NextFree ELSE IF PlanId = 8 THEN (IF Len(hist) = 0 THEN 6 ELSE 2 * (m % 2)) ELSE (m + 4 * i) % NT
+             IN UsefulOpen(cs, st) /\ GOpen(Nth(ClosedW, i), cs, st, IF PlanId \in {7, 8} THEN Len(hist) > 0 ELSE ((i + j) % 2 = 0 \/ PlanId = 6))
        \/ /\ k \in {2, 3, 4, 5} /\ OpenW # {} /\ KindOK("write")
           /\ LET w == Nth(OpenW, i)
                  W == LegalWrites(w)
-             IN W # {} /\ GWrite(w, IF PlanId \in {6, 7} THEN CHOOSE ts \in W : \A o \in W : Max(ts) <= Max(o)   \* dense: the next slot(s)
+             IN W # {} /\ GWrite(w, IF PlanId \in {6, 7, 8} THEN CHOOSE ts \in W : \A o \in W : Max(ts) <= Max(o)   \* dense: the next slot(s)
                                     ELSE Nth(W, m + 4 * j + 16 * (k - 2)))
+       \/ /\ k = 5 /\ m = 3 /\ OpenW # {} /\ KindOK("cwrite")
+          /\ LET w == Nth(OpenW, i) IN ConflictSets(w) # {} /\ GWriteConflict(w, Nth(ConflictSets(w), j))
        \/ /\ k = 6 /\ OpenW # {} /\ j = 0 /\ KindOK("commit")
-          /\ LET w == Nth(OpenW, i) IN (wr[w].buf # {} \/ m = 0) /\ (~wr[w].auto \/ m = 0 \/ PlanId = 7) /\ GCommit(w)
+          /\ LET w == Nth(OpenW, i) IN (wr[w].buf # {} \/ m = 0) /\ (~wr[w].auto \/ m = 0 \/ PlanId \in {7, 8}) /\ GCommit(w)
        \/ /\ k = 7 /\ OpenW # {} /\ j = 0 /\ m < 2 /\ KindOK("close")
           /\ LET w == Nth(OpenW, i) IN (wr[w].n > 0 \/ LegalWrites(w) = {}) /\ GClose(w)
        \/ /\ k = 8 /\ j < 2 /\ AnyData
